@@ -248,6 +248,9 @@ func (c *Check) Violation(key string, summary string, files map[string]string) {
 	c.violKeys[key] = true
 	h := sha256.Sum256([]byte(key + "\x00" + summary))
 	dir := filepath.Join(outRoot, "replays", c.Prop, hex.EncodeToString(h[:6]))
+	if os.Getenv("VERIF_VERBOSE") != "" {
+		fmt.Printf("V %s :: %s\n", key, oneLine(summary))
+	}
 	if c.printed < 25 {
 		os.MkdirAll(dir, 0o755)
 		meta := map[string]interface{}{"property": c.Prop, "key": key, "summary": summary, "seed": c.Seed, "tier": c.Tier}
